@@ -54,6 +54,11 @@ int main(void)
     {
         return 2;
     }
+    if (controlHandshakes(v_tls_1_3, TLS_AES_128_GCM_SHA256) < 0)
+    {
+        printf("CONTROL FAILED\n");
+        return 3;
+    }
     sk = loadServerKeys(0);
     ck = loadClientKeys(0);
     memset(&so, 0, sizeof(so)); memset(&co, 0, sizeof(co));
@@ -118,6 +123,6 @@ int main(void)
             "key change, no unexpected_message alert)\n");
         return 1;
     }
-    printf("no violation\n");
+    printf("OK: client refused the handshake messages behind ServerHello (rc %d, alert %d)\n", rc, cli->err);
     return 0;
 }
